@@ -29,7 +29,8 @@ Verdict: ~ok is a violation; it is a KNOWN finding only if fit names deviations 
     (one known entry per deviation); ~ok with fit = none is an unexplained VIOLATION.  ok but fit = none is
     SPEC-DRIFT (the real program does something neither wrong nor predicted).
 
-Bounds: addresses < 2^24 (no 32-bit wrap), payload per record <= a few hundred bytes in generated cases, corpus
+Bounds: addresses < 2^24 (no 32-bit wrap), payload per record <= 32 bytes in generated cases (plus the P2Bin_CoverBig
+    space: one record of 4097 or 9000 bytes, longer than the 4096-byte copy buffer, x 9 lanes x 2 windows), corpus
     files <= 24 KiB (quick) with windows <= 1024 units; MC constants are stated in the cfg files.
 NOT covered: non-definite cases are not judged (mixed granularity among the selected records, windows that are not
     whole lane periods, automatic range with nothing selected, overlap only outside the window); -k; wildcards in
@@ -37,7 +38,15 @@ NOT covered: non-definite cases are not judged (mixed granularity among the sele
     Which record wins on overlapping bytes and the header contents without any entry address are left open as the
     manual does; the model's choice (last record wins, zeros) is only tracked as drift.
 
-Mutations of the real code tried (scratch copy, VERIF_REPO): see bottom of this file (MUTATIONS).
+MUTATIONS tried (scratch copies, VERIF_REPO; list with sed expressions in selftest/C05-C07-mutations.txt):
+  detected (VIOLATION, exit 1): ErgStop clip off by one (pinned and fixed tree); default fill $00; checksum 0xff-sum;
+    header endianness swapped; no clipping at the window start; -segment test removed; (offset) not applied in
+    ProcessFile; WORD1 lane table entry; overlap warning never given; automatic start off by one; last entry record
+    wins / -e ignored; tail of a record longer than the 4096-byte copy buffer dropped; wrong lane count in the repaired
+    LaneBytesBelow.
+  equivalent (exit 0, rightly): `+1` in LaneBytesBelow (cancels in the difference).
+  reported as KNOWN-FINDING only: removing the repaired secondary overlap test from the fixed tree (it IS the known
+    defect; becomes a VIOLATION when known_findings/C05.json flips that entry to "fixed").
 """
 import json
 import os
@@ -48,7 +57,7 @@ from vlib.report import Report
 
 PID = "C05"
 DEVS = ["filter_hdr", "lane_floor", "maxgran_explicit", "overlap_first_only", "zero_len"]
-SEGNAMES = {1: "code", 2: "data", 3: "idata", 4: "xdata", 5: "ydata", 6: "bdata", 7: "io", 8: "reg", 9: "romdata"}
+SEGNAMES = {1: "code", 2: "data", 3: "idata", 4: "xdata", 5: "ydata", 6: "bitdata", 7: "io", 8: "reg", 9: "romdata"}
 ADDR_BOUND = 1 << 24
 
 MC_QUICK = ["P2Bin_MC_window.cfg", "P2Bin_MC_overlap.cfg", "P2Bin_MC_select.cfg", "P2Bin_MC_post.cfg",
@@ -195,9 +204,12 @@ def judge(rep, tier, pending, bld):
     if not pending:
         return
     path = os.path.join(scratch(), "c05-cases.ndjson")
+    # deviations still listed as known defects (known_findings/C05.json): TLC prefers them when several sets explain
+    known = sorted({k["match"]["explained_by"] for k in rep.known
+                    if k.get("status") == "known" and "explained_by" in k.get("match", {})})
     with open(path, "w") as f:
         for i, (tag, c, job, obs, exp) in enumerate(pending):
-            f.write(json.dumps({"id": i, "c": c, "obs": obs}, separators=(",", ":")) + "\n")
+            f.write(json.dumps({"id": i, "c": c, "obs": obs, "known": known}, separators=(",", ":")) + "\n")
     with Phase("TLC judges %d observations" % len(pending)):
         r = tlc.must(tlc.run("P2Bin_Trace", "P2Bin_Trace.cfg", workers=1, env={"CASES": path}, mem="8g",
                              timeout=1500 if tier == "quick" else 3000), "P2Bin_Trace")
@@ -217,7 +229,8 @@ def judge(rep, tier, pending, bld):
         for i, r2 in zip(bad, again):
             if observe(r2) != pending[i][3]:
                 flaky.add(i)
-                rep.drift("p2bin %s is not deterministic" % " ".join(pending[i][2]["argv"]))
+                rep.drift("p2bin %s is not deterministic: %s vs %s"
+                          % (" ".join(pending[i][2]["argv"]), _short(pending[i][3]), _short(observe(r2))))
     for i, (tag, c, job, obs, exp) in enumerate(pending):
         if i in flaky:
             continue
@@ -286,14 +299,14 @@ def main(tier):
 
     # (G) ------------------------------------------------------------------------------------------
     cases = []
-    for cfg in (["P2Bin_Cover.cfg", "P2Bin_CoverOvl.cfg"] if tier == "quick"
-                else ["P2Bin_Cover1.cfg", "P2Bin_CoverOvl.cfg", "P2Bin_Cover2.cfg"]):
+    for cfg in (["P2Bin_Cover.cfg", "P2Bin_CoverOvl.cfg", "P2Bin_CoverBig.cfg"] if tier == "quick"
+                else ["P2Bin_Cover1.cfg", "P2Bin_CoverOvl.cfg", "P2Bin_CoverBig.cfg", "P2Bin_Cover2.cfg"]):
         with Phase("TLC " + cfg):
             cov = tlc.must(tlc.run("P2Bin_Gen", cfg, timeout=1500, mem="8g"), cfg)
         rep.model("P2Bin_Gen(%s)" % cfg, cov)
         cases += [("cover", x) for (tag, x) in cov.printed if tag == "TR"]
     ncover = len(cases)
-    nsim = 400 if tier == "quick" else 6000
+    nsim = 300 if tier == "quick" else 3000
     with Phase("TLC simulate"):
         sim = tlc.must(tlc.run("P2Bin_Gen", "P2Bin_Sim.cfg", workers=4, simulate=nsim, depth=12, timeout=1500,
                                mem="8g"), "P2Bin_Gen simulate")
